@@ -77,7 +77,7 @@ def gen(r, tier, i):
     if r.random() < 0.3:
         emit_step = r.choice([0.5, 2, 0.25, 1.5]) if grid == 'dyadic' else float(r.choice(sched.DEC[gprec]['iv']))
     return {'class': cls, 'grid': grid, 'precision': prec, 'gprec': gprec, 't0': t0, 'procs': procs,
-            'calls': calls, 'nsteps': (r.choice([0, 1]) if cls == 'empty' else (1 if r.random() < 0.2 else 0)), 'emit_step': emit_step}
+            'ram_embed': i % 40 == 7, 'calls': calls, 'nsteps': (r.choice([0, 1]) if cls == 'empty' else (1 if r.random() < 0.2 else 0)), 'emit_step': emit_step}
 
 
 def run(spec):
@@ -95,6 +95,27 @@ def run(spec):
     m.eng = e
     ok, exc = drive(e, m, spec['calls'], sched.budget_for(spec))
     Mon.cur = None
+    if spec.get('ram_embed') and all(iv > 0 for iv, _ in spec['calls']):
+        # (not with empty intervals: a forced empty interval may emit a second row for a time - known finding F1 under
+        # C12 - which the RAM emitter refuses to merge)
+        # the same schedule once more with the repository's own RAM emitter, told to file its rows under a path
+        # (embed_path): every call still returns, and the emit times it keeps are the recorded ones
+        m2 = Mon()
+        Mon.cur = m2
+        try:
+            e2 = sched.build(spec, emitter={'type': 'timeseries', 'embed_path': ('cell', '1')})
+            m2.eng = e2
+            ok2, exc2 = drive(e2, m2, spec['calls'], sched.budget_for(spec))
+            V.check('terminates', ok2 == ok, lambda: ('with RAMEmitter(embed_path=...) the call sequence ended differently', repr(exc2)[:300]))
+            if ok and ok2:
+                rec = sorted({ev[2] for ev in m.events if ev[0] == 'emit' and ev[1] == 'history'})
+                V.check('rows_increasing', sorted(e2.emitter.get_data(), key=lambda t: (t is None, t)) == rec,
+                        lambda: ('emit times kept by RAMEmitter(embed_path=...) differ from the times of the emitted rows',
+                                 list(e2.emitter.get_data())[:8], rec[:8]))
+        except Exception as ex:
+            V.check('constructs', False, ('run with RAMEmitter(embed_path=...) raised', type(ex).__name__, str(ex)[:200]))
+        finally:
+            Mon.cur = None
     prec = spec['precision']
     exact = spec['grid'] != 'decimal_noprec'
 
